@@ -815,7 +815,41 @@ func c02Encoders(c *Ctx) {
 			if fd != nil {
 				name = declName(fd)
 			}
-			if name == "ReparseExtensions" {
+			// an internal re-parse buffer: the function that marshals - or the package function that calls it - unmarshals
+			// again (proto.UnmarshalOptions.Unmarshal); the bytes are consumed there and never emitted
+			reparses := func(decl *ast.FuncDecl) bool {
+				hit := false
+				if decl == nil || decl.Body == nil {
+					return false
+				}
+				ast.Inspect(decl.Body, func(m ast.Node) bool {
+					if call, ok := m.(*ast.CallExpr); ok {
+						if fn := Callee(pk.TypesInfo, call); fn != nil && fn.Name() == "Unmarshal" && fn.Pkg() != nil && fn.Pkg().Path() == "google.golang.org/protobuf/proto" {
+							hit = true
+						}
+					}
+					return true
+				})
+				return hit
+			}
+			internal := reparses(fd)
+			if !internal && fd != nil {
+				if self, ok := pk.TypesInfo.Defs[fd.Name].(*types.Func); ok {
+					for _, other := range p.FuncsOf(pk) {
+						if other.Decl.Body == nil || other.Decl == fd || !reparses(other.Decl) {
+							continue
+						}
+						ast.Inspect(other.Decl.Body, func(m ast.Node) bool {
+							if call, ok := m.(*ast.CallExpr); ok && Callee(pk.TypesInfo, call) == self {
+								internal = true
+							}
+							return true
+						})
+					}
+				}
+			}
+			if internal {
+				name = "reparse"
 				// reviewed: the bytes are unmarshalled again two statements later and never leave the function
 				c.Ob("DET-ENCODER", "protoencoding."+name+"/MarshalOptions.internal", cl.Pos(), true, false, "internal re-parse buffer: bytes are consumed by Unmarshal in the same function, not emitted")
 				return true
